@@ -10,7 +10,8 @@ Property-level oracle (independent of the model): optimum / lexicographic optimu
 front by enumeration of the finite domain with the evaluator below; stack before = after.
 Three input families: GENERAL (random small systems), CONST (MinMax/MaxMin lists with literal
 constants at every position), BOX (one variable of any magnitude over an interval-set solver,
-with a budget on solver calls: an overrun is reported with the call trace).
+with a budget on solver calls: an overrun is reported with the call trace), ALIAS (goal lists with
+equal-looking but distinct goals, also built from scripts; keys of the boxed mapping by identity).
 """
 import itertools
 import json
@@ -40,6 +41,8 @@ RULE = ("GENERAL: systems of <=3 variables out of Int (explicit bounds asserted)
         "CONST: MinMax/MaxMin lists of length 2..6 with constants at every pair of positions, every single position and random triples, symbols elsewhere, BV signed/unsigned and Int, all drivers. "
         "BOX: one variable optimised under bounds and holes over the interval-set reference solver (no enumeration): BV widths 8, 54, 64, 65, 128 signed and unsigned, "
         "Int around 0, +-2**53, 2**53-7, +-2**64, +-10**30; binary search at any distance with a budget of 2*bits+16 solver calls per goal, linear search over <=10 feasible values; single, boxed, lexicographic, one-goal pareto. "
+        "ALIAS: multi-goal calls (boxed, lexicographic, pareto) with equal-looking but distinct goals: the same term in two goal objects, other direction / signedness, one object passed twice, "
+        "MaxSMT goals over one clause set with other multiplicities / order / weights / one more clause / equal copy, weights as int, Int or Real constants and real_weights flag, built through the API and from scripts (assert-soft, one :id per goal, interleaved); single goals with repeated soft clauses; the boxed mapping must have exactly the passed goal objects as keys. "
         "distinct = distinct (system, goals, driver, strategy, mode, order/policy)")
 
 SOLVE_BUDGET = 400          # solve calls per optimisation: a diverging loop is reported, not waited for
@@ -1348,6 +1351,30 @@ def alias_specs(rnd, tier):
         return out
 
     for _ in range(reps):
+        # (b) MaxSMT goals over one clause set, API-built, and (c) the same from scripts
+        for n in range(44):
+            base = [[c, rnd.randint(1, 4)] for c in rnd.sample(pool, rnd.choice([2, 2, 3]))]
+            vl = variants(base)
+            k = rnd.choice([2, 2, 3, 4])
+            soft_lists = [base] + rnd.sample(vl, k - 1)
+            if n % 4 == 0:
+                soft_lists = [base, vl[0]]                      # exactly: same set, other multiplicities
+            rnd.shuffle(soft_lists)
+            for script in (False, True):
+                real = [True] * len(soft_lists) if script else [rnd.random() < 0.3 for _ in soft_lists]
+                goals = [["maxsmt", sl, r] for sl, r in zip(soft_lists, real)]
+                if not script and rnd.random() < 0.3:
+                    j = rnd.randrange(len(goals))
+                    goals.insert(rnd.randrange(j + 1, len(goals) + 1), ["same", j])
+                if rnd.random() < 0.3:
+                    goals.append([rnd.choice(["min", "max"]), X, False])
+                anyreal = any(g[0] == "maxsmt" and g[2] for g in goals)
+                sp = {"vars": ivs, "assertions": ibase + extra_asserts(), "pushes": [], "goals": goals, "driver": "boxed",
+                      "strategy": "linear" if anyreal else rnd.choice(["linear", "binary"]), "mode": rnd.choice(["sua", "incr"]),
+                      "order_seed": rnd.randrange(1 << 30)}
+                if script:
+                    sp["script"] = True
+                specs.append(sp)
         # (a) plain goals
         for vs, base, terms, sgs in ((ivs, ibase, [X, ["+", X, ["i", 1]], ["ite", ["v", "p"], X, ["-", ["i", 2], X]]], [False]),
                                      (bvs, [], [["v", "a"], ["bvadd", ["v", "a"], ["v", "b"]], ["bvxor", ["v", "a"], ["bv", 5, 3]]], [False, True])):
@@ -1362,31 +1389,6 @@ def alias_specs(rnd, tier):
                             specs.append({"vars": vs, "assertions": base + (extra_asserts() if vs is ivs else []), "pushes": [],
                                           "goals": goals, "driver": d, "strategy": rnd.choice(["linear", "binary"]) if d != "pareto" else "linear",
                                           "mode": rnd.choice(["sua", "incr"]), "order_seed": rnd.randrange(1 << 30)})
-        # (b) MaxSMT goals over one clause set, API-built, and (c) the same from scripts
-        for n in range(44):
-            base = [[c, rnd.randint(1, 4)] for c in rnd.sample(pool, rnd.choice([2, 2, 3]))]
-            vl = variants(base)
-            k = rnd.choice([2, 2, 3, 4])
-            soft_lists = [base] + rnd.sample(vl, k - 1)
-            if n % 4 == 0:
-                soft_lists = [base, vl[0]]                      # exactly: same set, other multiplicities
-            rnd.shuffle(soft_lists)
-            for script in (False, True):
-                real = [True] * len(soft_lists) if script else [rnd.random() < 0.3 for _ in soft_lists]
-                goals = [["maxsmt", sl, r] for sl, r in zip(soft_lists, real)]
-                if not script and rnd.random() < 0.3:
-                    goals.insert(rnd.randrange(len(goals) + 1), ["same", 0])
-                    goals = [g if g[0] != "same" or i > 0 else goals[1] for i, g in enumerate(goals)]
-                    goals = [g for i, g in enumerate(goals) if not (g[0] == "same" and i == 0)]
-                if rnd.random() < 0.3:
-                    goals.append([rnd.choice(["min", "max"]), X, False])
-                anyreal = any(g[0] == "maxsmt" and g[2] for g in goals)
-                sp = {"vars": ivs, "assertions": ibase + extra_asserts(), "pushes": [], "goals": goals, "driver": "boxed",
-                      "strategy": "linear" if anyreal else rnd.choice(["linear", "binary"]), "mode": rnd.choice(["sua", "incr"]),
-                      "order_seed": rnd.randrange(1 << 30)}
-                if script:
-                    sp["script"] = True
-                specs.append(sp)
         # (d) one goal with repeated soft clauses
         for n in range(24):
             base = [[c, rnd.randint(1, 4)] for c in rnd.sample(pool, rnd.choice([2, 3]))]
@@ -1641,7 +1643,7 @@ def run(tier, only_specs=None):
     wraps, wviol = [], []
     specs = list(only_specs) if only_specs is not None else list(CORPUS) + [MIXED]
     if only_specs is None:
-        per = 40 if tier == "quick" else 400
+        per = 32 if tier == "quick" else 400
         for driver in ("single", "boxed", "lex", "pareto"):
             for strategy in ("linear", "binary"):
                 if driver == "pareto" and strategy == "binary":
